@@ -649,16 +649,15 @@ example : let m : Vector ℚ 6 := #v[2, -1, 3, 5, -2, 7]
   decide +kernel
 
 /-- **Telescoping for `backward`.**  `msBackward` is the literal `MultiScaleCoronagraph.backward`
-(conjugated Lyot stop first, every stored mask conjugated).  On the exact design with *real* windows
-(`windowsReal`: fixed by the conjugation, as Tukey windows are) the conjugated masks
-`conj(m)(w_{i-1} − w_i)` telescope exactly like the masks themselves:
-`backward(y) = B (conj(m) · F (conj(stop) · y))`, for any number of levels and any involutive or
-non-involutive ring homomorphism `cj`.  Ops `msalgb` (real constructor + real `backward` on
+(conjugated Lyot stop first, every stored mask conjugated).  On the exact design the conjugated
+masks `conj(m)(conj w_{i-1} − conj w_i)` telescope exactly like the masks themselves (windows real
+or not): `backward(y) = B (conj(m) · F (conj(stop) · y))`, for any number of levels and any ring
+homomorphism `cj`.  Ops `msalgb` (real constructor + real `backward` on
 stand-ins) and `msteleb` (this identity at the Gaussian rationals). -/
 theorem multiscale_backward_telescopes [CommRing K] [BEq K] [LawfulBEq K] (cj : K →+* K)
     (m : Vector K d) (F : Vector (Vector K n) d) (B : Vector (Vector K d) n)
     (sps : List (Vector Bool d × Vector K d)) (hne : sps ≠ [])
-    (hok : nestedOK (onesVec K d) sps = true) (hw : windowsReal cj sps = true)
+    (hok : nestedOK (onesVec K d) sps = true)
     (stop : Option (Vector K n)) (y : Vector K n) :
     msBackward cj (exactLevels m F B sps) stop y =
       idealForward (Vector.ofFn fun p => cj m[p]) F B
@@ -667,7 +666,7 @@ theorem multiscale_backward_telescopes [CommRing K] [BEq K] [LawfulBEq K] (cj : 
          | some s => Vector.ofFn fun i => y[i] * cj s[i]) := by
   have h : ∀ y' : Vector K n, msBackward cj (exactLevels m F B sps) none y' =
       idealForward (Vector.ofFn fun p => cj m[p]) F B y' :=
-    fun y' => toFn_injective (toFn_msBackward_exact cj m F B sps hne hok hw y')
+    fun y' => toFn_injective (toFn_msBackward_exact cj m F B sps hne hok y')
   cases stop with
   | none => exact h y
   | some s => exact h _
